@@ -196,7 +196,8 @@ for directed in (False, True):
                     cfg=dict(directed=directed, removal=removal, form=form, nodes=nodes, elems=elems, L=1 if quick else 2,
                              la=1, lc=0),
                     tier="quick" if quick else "thorough", timeout=900,
-                    tags=["bulk_failed", "bulk_ok"], twins=1,
+                    # directed dnpath walks 9->3->2->1->0: none of its elements is one of the stored pairs 1->2, 2->3
+                    tags=(["bulk_ok"] if (directed and form == "dnpath") else ["bulk_failed", "bulk_ok"]), twins=1,
                     bounds="graph with pairs (1,2) (run of 2 instants) and (2,3) (run of 1 instant), symbolic starts, constructed "
                            "directly under the invariant (M3); bulk call %s on %s with symbolic t%s; comparison at an arbitrary instant q" %
                            (form, nodes or elems, " and optional symbolic e (span <= 2)" if form == "from" else ""),
